@@ -28,9 +28,9 @@ SPEC = {
         "filter::directive::StaticDirective::{new, cmp (Ord), cares_about, cares_about_target, level}",
     ],
     "sym": SYM,
-    "bounds": "k <= 2 directives (quick: targets of <= 1 byte over {a,b,:} incl. the empty target and the default; thorough: also every pair over {'', a, b, :, default}, k = 3 over {a, default}, 2-byte targets {a, aa, ab} and '::' paths {a, a::, a::b}) added in every order incl. duplicates, one harness per ordered tuple of directive keys (skeleton split: the keys decide where DirectiveSet::add inserts); every LevelFilter per directive; "
+    "bounds": "k <= 2 directives (quick: targets of <= 1 byte over {a,b,:} incl. the empty target and the default; thorough: also every pair over {'', a, b, :, default}, 2-byte targets {a, aa, ab} and '::' paths {a, a::, a::b}) added in every order incl. duplicates, one harness per ordered tuple of directive keys (skeleton split: the keys decide where DirectiveSet::add inserts); every LevelFilter per directive; "
               "query targets: every string over {a,b,:} up to one byte longer than the targets (13 / 40 / 12 literals), every level, span or event; Vec-backed directive list (feature smallvec off)",
-    "outside": "EnvFilter entirely (Directive::parse is a Lazy<Regex> plus the matchers automata; span-scoped and field-value directives depend on it), hence Targets<->EnvFilter agreement; the round trip parse(display(T)) == T (Display through core::fmt into a String, then split/from_str: attempted, not decided within 1200 s / 10 GB even for one directive); field-name directives; more than 3 directives; targets longer than 4 bytes; "
+    "outside": "EnvFilter entirely (Directive::parse is a Lazy<Regex> plus the matchers automata; span-scoped and field-value directives depend on it), hence Targets<->EnvFilter agreement; the round trip parse(display(T)) == T (Display through core::fmt into a String, then split/from_str: attempted, not decided within 1200 s / 10 GB even for one directive); field-name directives; more than 2 directives (k = 3 over {a, default} was attempted: every tuple exceeds the 10 GB memory cap); targets longer than 4 bytes; "
                "filtering through a Filtered layer on a Registry (C07); the SmallVec-backed directive list of the default feature set",
     "stubs": ["std::rt::thread_cleanup -> no-op", "core::fmt::write -> Ok(()) (only panic / debug_assert text)", "metadata built at run time with Metadata::new (one object, symbolic target / level / kind)",
               "a light Collect stand-in as the root of the Layered stack that supplies the Context"],
